@@ -109,6 +109,15 @@ def build_and_audit(prop: str, mod, tier: str):
     if rc != 0:
         broken.append({"kind": "regeneration", "what": "tools/gen_consts.py crashed", "detail": out[-2000:]})
     mods = list(mod.LEAN_MODULES)
+    extra_pref = list(getattr(mod, "EXTRA_THEOREM_PREFIXES", ()))
+    try:  # tie theorems (model = code translated by tools/py2lean.py) guarding this property: tools/tie_modules.json
+        tie = [m for m in json.load(open(os.path.join(VERIF, "tools", "tie_modules.json"))).get(prop, []) if m not in mods]
+    except (OSError, ValueError):
+        tie = []
+    if tie:
+        mods += tie
+        extra_pref.append("Tie_")
+    info["tie_modules"] = tie
     if tier == "thorough":
         mods += list(getattr(mod, "LEAN_MODULES_THOROUGH", []))
     # generated files an extractor could not re-derive from the current source (filled from the recorded baseline): for the
@@ -138,7 +147,7 @@ def build_and_audit(prop: str, mod, tier: str):
     # obligations = every `theorem <prop>_*` of the property's modules
     thms = []
     for m in mods:
-        for t in theorems_of(m, prop, getattr(mod, "EXTRA_THEOREM_PREFIXES", ())):
+        for t in theorems_of(m, prop, extra_pref):
             thms.append((m, t))
     info["obligations"] = len(thms)
     info["theorems"] = [t for _, t in thms]
